@@ -1,23 +1,13 @@
 use exmex::prelude::*;
-use exmex_verif::tcase::*;
-use exmex_verif::term::*;
+use exmex::{parse_val, Val};
 fn main() {
-    let table = vec![OpSpec::bin("-", 0, false), OpSpec::un("sin"), OpSpec::bin("+", 1, false)];
-    set_table(&table);
-    for text in ["( -(x - {x} )- x 1 )", "-(x - x)- x 1", "- x 1", "-(y-z) x", "- (y) - x 1", "+ x 1", "(+ x 1)", "(- (y-z) x)"] {
-        let f = F::parse(text);
-        let d = D::parse(text);
-        match (&f, &d) {
-            (Ok(f), Ok(d)) => {
-                let n = f.var_names().len();
-                let vals: Vec<Term> = (0..n).map(|i| Term::Atom(i as u32)).collect();
-                println!("{text:30} flat {:?}   deep {:?}  unparse {}", f.eval(&vals).unwrap(), d.eval(&vals).unwrap(), d.unparse());
-            }
-            _ => println!("{text:30} flat ok={} deep ok={} {:?} {:?}", f.is_ok(), d.is_ok(), f.err().map(|e| e.msg().to_string()), d.err().map(|e| e.msg().to_string())),
+    for (text, x) in [("x/2", 1.0), ("3 ^ ((0.5) if x < 0 else 2)", 1.0), ("x/2.0", 1.0), ("(x*x if x > 1.0 else 2.0*x) + 1", 2.0), ("(x*x if x > 1.0 else 2.0*x) + 1", 0.5), ("x^2", 3.0), ("2.0^x", 1.0), ("sin(x)*3", 0.0), ("(1/2)*x", 2.0), ("x*(7/2)", 2.0),("sqrt(x)",4.0),("log10(x)",4.0), ("1/x", 2.0), ("(x if x<1 else 2*x) if x<3 else 0.5*x", 2.0), ("x^x", 2.0),("y if 1.5 != 1 else x*y", 2.0)] {
+        let e = parse_val::<i32, f64>(text).unwrap();
+        let n = e.var_names().len();
+        let d = e.clone().partial(0);
+        match d {
+            Ok(d) => println!("{text:45} d/dx = `{}`  at {x}: {:?}", d.unparse(), d.eval(&vec![Val::Float(x); n])),
+            Err(er) => println!("{text:45} ERR {}", er.msg()),
         }
     }
-    let text = "(- (y-z) x)";
-    println!("f64: {:?} {:?}", exmex::FlatEx::<f64>::parse(text).map(|e| e.eval(&[1.0, 10.0, 100.0])), exmex::DeepEx::<f64>::parse(text).map(|e| e.eval(&[1.0, 10.0, 100.0])));
-    println!("f64 eval_str: {:?}", exmex::eval_str::<f64>("* (1 - 2) 4"));
-    println!("f64 eval_str: {:?}", exmex::eval_str::<f64>("* 3 4"));
 }
